@@ -53,10 +53,12 @@ Apply(op, l) ==
     [] op.k = "insert" -> IF ~op.v.ok THEN Exc(l, "TypeError") ELSE Ok(InsertAt(l, NormIns(Len(l), op.i), Item(op.v)))
     [] op.k = "extend" -> IF \E k \in 1..Len(op.vs) : ~op.vs[k].ok THEN Exc(l, "TypeError")     \* atomic reading, see note in the harness
                           ELSE Ok(l \o [k \in 1..Len(op.vs) |-> Item(op.vs[k])])
+    [] op.k = "extend_self" -> Ok(l \o l)                                                      \* a.extend(a): the list doubled, like list
     [] op.k = "remove" -> IF ~op.v.ok THEN Exc(l, "TypeError")
                           ELSE LET k == FirstEq(l, 1, op.v) IN IF k = 0 THEN Exc(l, "ValueError") ELSE Ok(RemoveAt(l, k))
     [] op.k = "pop" -> LET k == NormGet(Len(l), op.i) IN
                        IF k < 0 \/ k >= Len(l) THEN Exc(l, "IndexError") ELSE RetItem(RemoveAt(l, k+1), l[k+1])
+    [] op.k = "pop_default" -> IF l = <<>> THEN Exc(l, "IndexError") ELSE RetItem(SubSeq(l, 1, Len(l) - 1), l[Len(l)])   \* a.pop()
     [] op.k = "reverse" -> Ok(Rev(l))
     [] op.k = "clear" -> Ok(<<>>)
     [] op.k = "get" -> LET k == NormGet(Len(l), op.i) IN
@@ -67,8 +69,8 @@ Apply(op, l) ==
 
 NoOp == [k |-> "init", i |-> 0, j |-> 0, st |-> 1, v |-> [id |-> 0, t |-> <<>>, ok |-> TRUE], vs |-> <<>>]
 Init == lst = <<>> /\ last = [op |-> NoOp, r |-> <<>>] /\ hist = <<>>
-Grows(op) == op.k \in {"append", "insert", "extend"}
-Do(op) == /\ (Grows(op) => Len(lst) + (IF op.k = "extend" THEN Len(op.vs) ELSE 1) <= MaxLen)
+Grows(op) == op.k \in {"append", "insert", "extend", "extend_self"}
+Do(op) == /\ (Grows(op) => Len(lst) + (IF op.k = "extend" THEN Len(op.vs) ELSE IF op.k = "extend_self" THEN Len(lst) ELSE 1) <= MaxLen)
           /\ LET res == Apply(op, lst) IN
              /\ lst' = res.l
              /\ last' = [op |-> op, r |-> res.r]
